@@ -536,10 +536,10 @@ class Process(object):
         return False
 
     @debuglog
-    def send_signal_child(self, pid, signum):
+    def send_signal_child(self, pid, signum, recursive=False):
         """Send signal *signum* to child *pid*."""
         children = dict((child.pid, child)
-                        for child in get_children(self._worker))
+                        for child in get_children(self._worker, recursive))
         try:
             children[pid].send_signal(signum)
         except KeyError:
